@@ -8,8 +8,9 @@ Model: `Model/Prefetch.lean` (the server handlers `_init_iterator` / `_next_batc
 shutdown, the server's own thread, the prefetch thread and the client loop of
 `CourierClient.async_iterate`) on top of the queue LTS `Model/Queue.lean`; one atomic step per
 synchronisation operation.  The model is the model of the code **with** the repairs of findings F7
-(`get_batch(.., keep_partial=True)`), F25 (`_next_batch` reads `self._generator` once) and F26
-(stop-and-install is one critical section).
+(`get_batch(.., keep_partial=True)` in `_next_batch`; in the queue model the flag `Shared.keepPartial` of the
+server's queue), C15-F25 (`_next_batch` reads `self._generator` once) and C15-F26 (stop-and-install is one
+critical section).
 
 All theorems quantify over every configuration reachable by **any** schedule (`Reachable` = reflexive
 transitive closure of `step` over all scheduler choices), every `prefetch_size`, every requested batch
